@@ -82,3 +82,4 @@ delete_unreachable = Unit(
 )
 
 UNITS.append(delete_unreachable)
+
